@@ -235,3 +235,27 @@ def crcArbitersMN (guarded : Bool) (code : Bytes) : R Bool :=
     .val true
 
 end ElaVerif.CoinbaseTotal
+
+namespace ElaVerif.CoinbaseTotal
+open ElaVerif.Script
+
+/-! ### round 5: cross-chain output index, RevertToDPOS first program -/
+
+/-- Go `int(x)` of a `uint64` -/
+def u64ToInt (x : Nat) : Int := if x % 2 ^ 64 < 2 ^ 63 then ((x % 2 ^ 64 : Nat) : Int) else ((x % 2 ^ 64 : Nat) : Int) - 2 ^ 64
+
+/-- `checkTransferCrossChainAssetTransactionV0`, one payload entry: the index test and the two later reads
+    `t.Outputs()[payloadObj.OutputIndexes[i]]`.  `fixed = false`: `int(outputIndex) >= len(outputs)`;
+    `fixed = true`: `outputIndex >= uint64(len(outputs))`.  `.val true` = "Invalid transaction payload cross chain index". -/
+def crossChainIndex (fixed : Bool) (nOut idx : Nat) : R Bool :=
+  let rejected := if fixed then nOut ≤ idx else (nOut : Int) ≤ u64ToInt idx
+  if rejected then .val true
+  else if idx < nOut then .val false else .panic
+
+/-- `blockchain.CheckRevertToDPOSTransaction`: `txn.Programs()[0]` then the m/n read of checkArbitratorsSignatures
+    (same shape as `crcArbitersMN`).  `.val false` = the length error of the fix. -/
+def revertToDPOSCheck (guarded : Bool) (nPrograms : Nat) (code : Bytes) : R Bool :=
+  if guarded ∧ nPrograms = 0 then .val false else
+  if nPrograms = 0 then .panic else crcArbitersMN guarded code
+
+end ElaVerif.CoinbaseTotal
